@@ -115,6 +115,9 @@ type FnExec struct {
 	tagsStated     []int
 	ifacePreds     map[string]types.Type // implements_<I> predicates in use
 	atcallHit      map[int]bool
+	autoDec        map[int]*CExpr // termination measures derived from loop guards, by loop ordinal
+	instantiate    bool           // contract flag `instantiate yes` (instantiate.go)
+	qfacts         []qfact        // quantified facts assumed so far (instantiate.go)
 	inTypeInv      bool
 	callOrd        map[ssa.Instruction]int
 	outside        []string // reasons the function leaves the supported subset
@@ -199,12 +202,21 @@ func (fx *FnExec) assume(fact string) {
 	if fact == "true" {
 		return
 	}
+	if fx.instantiate {
+		fx.collectForalls(fact, nil, 0)
+	}
 	fx.emit("(assert %s)", implies(fx.cur.pc, fact))
 }
 
 func (fx *FnExec) assumeGlobal(fact string) {
 	if fact == "true" {
 		return
+	}
+	if fx.instantiate {
+		save := fx.cur.pc
+		fx.cur.pc = "true"
+		fx.collectForalls(fact, nil, 0)
+		fx.cur.pc = save
 	}
 	fx.emit("(assert %s)", fact)
 }
